@@ -128,7 +128,8 @@ impl<'a> ArxmlLexer<'a> {
         debug_assert!(endpos > self.bufpos + 1);
         debug_assert!(self.buffer[self.bufpos] == b'<');
 
-        if self.buffer[endpos - 1] != b'?' {
+        // the shortest possible processing instruction is "<??>"; "<?>" has no separate closing '?'
+        if self.buffer[endpos - 1] != b'?' || endpos < self.bufpos + 3 {
             return Some(Err(self.error(ArxmlLexerError::InvalidProcessingInstruction)));
         }
 
